@@ -8,7 +8,7 @@ KEYS_SMALL = [bytes([0x61 + i, 0]) for i in range(26)]
 
 def key_universe(rng, n, kind):
     if kind == 'str':
-        return [('k%03d' % i).encode() + b'\0' for i in range(n)]
+        return [b'\0'] + [('k%03d' % i).encode() + b'\0' for i in range(n - 1)]       # the empty string is a key too
     if kind == 'case':     # keys that differ only in case: equal under the case-insensitive ordering
         base = [bytes([0x61 + i]) + b'\0' for i in range(max(2, n // 2))]
         return (base + [k.upper() for k in base])[:max(n, 4)]
@@ -24,6 +24,8 @@ def key_universe(rng, n, kind):
 
 def rand_val(rng):
     r = rng.random()
+    if r > 0.8:           # values that differ only in case or only behind a NUL: equal under some orderings of KEYS, never equal as values
+        return rng.choice([b'val\0', b'VAL\0', b'Val\0', b'v\0x', b'v\0y', b'ab', b'abc'])
     if r < 0.15:
         return b''
     if r < 0.3:
@@ -38,7 +40,15 @@ def gen_history(rng, nops, keys, mix):
     for _ in range(nops):
         k = rng.choices(kinds, weights=mix)[0]
         key = rng.choice(keys)
-        if k == 'put' and rng.random() < 0.07:     # value (and key) handed in through the table's own pointers (getobj newmem=false)
+        skey = key[:-1] if key.endswith(b'\0') and b'\0' not in key[:-1] else None
+        if skey is not None and k in ('put', 'get', 'remove') and rng.random() < 0.3:
+            # the string-key interface (the key's terminator is part of the key; the empty string is a key like any other)
+            if k == 'put':
+                v = bytes(rng.choice(b'abcXYZ019 ') for _ in range(rng.choice([0, 1, 3, 8])))
+                ops.append('sput %s %s' % (hexs(skey) or '-', hexs(v) or '-'))
+            else:
+                ops.append('%s %s' % ('sget' if k == 'get' else 'srem', hexs(skey) or '-'))
+        elif k == 'put' and rng.random() < 0.07:     # value (and key) handed in through the table's own pointers (getobj newmem=false)
             ops.append('putself %s %d:%d:%d' % (hexs(key), rng.choice([0, 0, 1, 2]), rng.choice([-1, -1, 1, 2, 3]), rng.randrange(2)))
         elif k == 'put':
             ops.append('put %s %s' % (hexs(key), hexs(rand_val(rng))))
@@ -80,6 +90,7 @@ def canon_near(obs):
 def monitor(ctx, opline, impl, spec, focus):
     """Property monitor: implementation observation vs specification observation. Returns a signature dict or None."""
     kind = opline.split()[0]
+    kind = {'sput': 'put', 'sget': 'get', 'srem': 'remove'}.get(kind, kind)
     for w in ('CRASH', 'TIMEOUT'):          # a call that died after printing part of its line
         if impl.endswith(w):
             impl = w
